@@ -164,7 +164,7 @@ func plan(seed int64, tier string) []vrt.Case {
 	}
 
 	// ---- PRNG volume ----
-	nLogin, nDeadline := 1200, 12
+	nLogin, nDeadline := 1200, 6
 	if tier == "thorough" {
 		nLogin, nDeadline = 20000, 120
 	}
